@@ -358,42 +358,61 @@ def run(sh):
             if math.isnan(x) or math.isinf(x) or math.isnan(y) or math.isinf(y):
                 continue
             fn = rng.choice(["sqrt", "sin", "cos", "tan", "asin", "acos", "atan", "atan2", "pow", "log", "hypot", "sin-deg", "log2"])
-            try:
+            def snap(v):
+                # Sass treats numbers within 1e-11 of each other as the same number: a built-in may legitimately
+                # evaluate at the snapped operand (acos(1.000000000001) = acos(1)), so both answers are accepted
+                r = float(round(v))
+                return r if v != r and abs(v - r) <= 1e-11 else v
+
+            def real(fn, x, y):
                 if fn == "sqrt":
-                    e, w = "math.sqrt(%s)" % lit(x), (math.sqrt(x) if x >= 0 else float("nan"), "")
-                elif fn == "sin":
-                    e, w = "math.sin(%s)" % lit(x), (math.sin(x), "")
-                elif fn == "cos":
-                    e, w = "math.cos(%s)" % lit(x), (math.cos(x), "")
-                elif fn == "tan":
-                    e, w = "math.tan(%s)" % lit(x), (math.tan(x), "")
-                elif fn == "sin-deg":
-                    e, w = "math.sin(%sdeg)" % lit(x), (math.sin(math.radians(x)), "")
-                elif fn == "asin":
-                    e, w = "math.asin(%s)" % lit(x), (math.degrees(math.asin(x)) if -1 <= x <= 1 else float("nan"), "deg")
-                elif fn == "acos":
-                    e, w = "math.acos(%s)" % lit(x), (math.degrees(math.acos(x)) if -1 <= x <= 1 else float("nan"), "deg")
-                elif fn == "atan":
-                    e, w = "math.atan(%s)" % lit(x), (math.degrees(math.atan(x)), "deg")
-                elif fn == "atan2":
-                    e, w = "math.atan2(%s, %s)" % (lit(y), lit(x)), (math.degrees(math.atan2(y, x)), "deg")
-                elif fn == "pow":
-                    if x < 0 and y != int(y):
-                        continue
-                    if x == 0 and y < 0:
-                        continue
-                    e, w = "math.pow(%s, %s)" % (lit(x), lit(y)), (math.pow(x, y), "")
-                elif fn == "log":
+                    return "math.sqrt(%s)" % lit(x), (math.sqrt(x) if x >= 0 else float("nan"), "")
+                if fn == "sin":
+                    return "math.sin(%s)" % lit(x), (math.sin(x), "")
+                if fn == "cos":
+                    return "math.cos(%s)" % lit(x), (math.cos(x), "")
+                if fn == "tan":
+                    return "math.tan(%s)" % lit(x), (math.tan(x), "")
+                if fn == "sin-deg":
+                    return "math.sin(%sdeg)" % lit(x), (math.sin(math.radians(x)), "")
+                if fn == "asin":
+                    return "math.asin(%s)" % lit(x), (math.degrees(math.asin(x)) if -1 <= x <= 1 else float("nan"), "deg")
+                if fn == "acos":
+                    return "math.acos(%s)" % lit(x), (math.degrees(math.acos(x)) if -1 <= x <= 1 else float("nan"), "deg")
+                if fn == "atan":
+                    return "math.atan(%s)" % lit(x), (math.degrees(math.atan(x)), "deg")
+                if fn == "atan2":
+                    return "math.atan2(%s, %s)" % (lit(y), lit(x)), (math.degrees(math.atan2(y, x)), "deg")
+                if fn == "pow":
+                    if (x < 0 and y != int(y)) or (x == 0 and y < 0):
+                        return None
+                    return "math.pow(%s, %s)" % (lit(x), lit(y)), (math.pow(x, y), "")
+                if fn == "log":
                     if x <= 0:
-                        continue
-                    e, w = "math.log(%s)" % lit(x), (math.log(x), "")
-                elif fn == "log2":
-                    if x <= 0 or y <= 0 or y == 1:
-                        continue
-                    e, w = "math.log(%s, %s)" % (lit(x), lit(y)), (math.log(x) / math.log(y), "")
-                else:
-                    e, w = "math.hypot(%s, %s)" % (lit(x), lit(y)), (math.hypot(x, y), "")
-            except (ValueError, OverflowError):
+                        return None
+                    return "math.log(%s)" % lit(x), (math.log(x), "")
+                if fn == "log2":
+                    # bases within the equality tolerance of 0 or 1 are outside the function's domain
+                    if x <= 0 or y <= 1e-11 or abs(y - 1) <= 1e-11:
+                        return None
+                    return "math.log(%s, %s)" % (lit(x), lit(y)), (math.log(x) / math.log(y), "")
+                return "math.hypot(%s, %s)" % (lit(x), lit(y)), (math.hypot(x, y), "")
+            try:
+                r0 = real(fn, x, y)
+                if r0 is None:
+                    continue
+                e, w = r0
+                alts = [w]
+                for xs, ys in ((snap(x), y), (x, snap(y)), (snap(x), snap(y))):
+                    if (xs, ys) != (x, y):
+                        try:
+                            ra = real(fn, xs, ys)
+                            if ra is not None:
+                                alts.append(ra[1])
+                        except (ValueError, OverflowError, ZeroDivisionError):
+                            pass
+                w = (w[0], w[1], [a[0] for a in alts])
+            except (ValueError, OverflowError, ZeroDivisionError):
                 continue
             exprs.append(e)
             wants.append(w)
@@ -408,7 +427,7 @@ def run(sh):
                 continue
             val, nu, du = probe.num(g[1])
             unit_ok = (list(nu) == ([w[1]] if w[1] else [])) and not du
-            tol_ok = relclose(val, w[0], 1e-9) or (abs(w[0]) < 1e-9 and abs(val) < 1e-9) or (abs(w[0]) > 1e15 and abs(val) > 1e15)
+            tol_ok = any(relclose(val, a, 1e-9) or (abs(a) < 1e-9 and abs(val) < 1e-9) or (abs(a) > 1e15 and abs(val) > 1e15) for a in w[2])
             if not unit_ok or not tol_ok:
                 sh.violation("math:" + e, "`%s` = %r%s, real-valued function gives %r%s" % (e, val, "".join(nu), w[0], w[1]), {"expr": e}, {"got": repr(val), "want": repr(w[0])})
             else:
